@@ -688,7 +688,7 @@ OBLIGATIONS = [
                                         "thorough": [{"n": 3, "timeout": 2}, {"n": 2, "timeout": 3}, {"n": 3, "timeout": 2, "noisy": True}]},
        timeout=900, bound="run() loop, 1..2 (thorough 3) workers, one stops heartbeating at a symbolic instant 0..3 s, timeout 2 s (3 s)"),
     Ob("C11.murder_reap_race", "murder_reap_race", cases={"quick": [{"n": 2, "timeout": 2, "kmax": 16}], "thorough": [{"n": 3, "timeout": 2, "kmax": 24}]},
-       timeout=900, bound="2 (thorough 3) workers, one hangs at 0..1 s, another dies at any of the master's first 17 (25) clock reads "
+       timeout={"quick": 900, "thorough": 2400}, bound="2 (thorough 3) workers, one hangs at 0..1 s, another dies at any of the master's first 17 (25) clock reads "
                           "(SIGCHLD handled right there), timeout 2 s"),
     Ob("C11.abort_in_request", "abort_in_request", timeout=300,
        bound="sync worker, 1..3 queued connections, the real handle_abort invoked inside the application (before / after "
